@@ -232,12 +232,25 @@ func c07Exhaustive() []c07Case {
 		}
 		top := refmodel.Path{{Name: hn, Alias: "#h"}}
 		nested := refmodel.Path{{Name: "m"}, {Name: hn, Alias: "#h"}}
-		for _, withLiteral := range []bool{true, false} {
+		for mode := 0; mode < 3; mode++ {
+			withLiteral := mode == 0
+			halfDecoy := mode == 2 // the containers of the path reading exist, its last member does not
 			mk := func() val.Item {
 				it := c07BaseItem(r, 2)
-				for k, v := range c06Decoy(hn, val.Num("1")) {
+				dec := c06Decoy(hn, val.Num("1"))
+				if halfDecoy {
+					dec = c06HalfDecoy(hn, val.Num("1"))
+				}
+				for k, v := range dec {
 					if _, clash := it[k]; !clash {
 						it[k] = v
+					}
+					if halfDecoy && v.K == val.KM {
+						mm := it["m"].Clone()
+						if _, clash := mm.M[k]; !clash {
+							mm.M[k] = v
+							it["m"] = mm
+						}
 					}
 				}
 				if withLiteral {
